@@ -46,6 +46,9 @@ NAMES = {
     "tank._prev_head": "prevHead", "tank.level": "tankLevel", "self.level": "tankLevel", "tank.elevation": "elevation",
     "dt": "dt", "q_net": "qNet", "dV": "dV", "delta_h": "deltaH", "cur_level": "curLevel", "V0": "v0", "V1": "v1",
     "level_new": "levelNew", "x": "x", "y": "y", "level": "level", "A": "area", "vol": "vol",
+    "cur_value": "curValue", "thresh_value": "threshValue", "self._backtrack": "backtrack", "thresh_level": "threshLevel",
+    "cur_value_volume": "curVol", "thresh_volume": "thrVol", "self._source_obj.diameter": "diameter", "self._source_obj.demand": "demand",
+    "self._source_obj.elevation": "elevation",
 }
 IX = {"0": "first", "1": "second", "-2": "secondLast", "-1": "last"}
 
@@ -83,6 +86,10 @@ class Tr:
             return ".%s .%s" % (U(e.value), IX[U(e.slice)])
         if isinstance(e, ast.Call):
             f = U(e.func)
+            if f == "int" and len(e.args) == 1 and isinstance(e.args[0], ast.Call) and U(e.args[0].func) == "math.floor":
+                return ".floor (%s)" % self.expr(e.args[0].args[0])
+            if f == "self._source_obj.get_volume" and len(e.args) == 1:
+                return ".vol (%s)" % self.expr(e.args[0])
             if f in ("np.minimum", "np.maximum") and len(e.args) == 2 and U(e.args[1]) in ("0.0", "0"):
                 return ".%s (%s)" % ("min0" if f == "np.minimum" else "max0", self.expr(e.args[0]))
             if f == "np.interp" and self.xpfp and [U(a) for a in e.args[1:]] == ["xp", "fp"]:
@@ -104,6 +111,10 @@ class Tr:
             return ".curveNone"
         if t == "len(xp) > 1":
             return ".lenGt1"
+        if t in ("self._source_obj.vol_curve is None",):
+            return ".curveNone"
+        if t in ("self._source_attr == 'head'", "self._source_attr == 'level'", "self._source_attr == 'pressure'"):
+            return ".attrIs .%s" % t.split("'")[1]
         if isinstance(c, ast.Compare) and len(c.ops) == 1 and isinstance(c.ops[0], ast.Eq):
             return ".eq (%s) (%s)" % (self.expr(c.left), self.expr(c.comparators[0]))
         raise Bad("condition not understood: " + t)
@@ -136,6 +147,9 @@ class Tr:
                 if U(s.test) == "level is None" and [U(x) for x in s.body] == ["level = self.level"] and not s.orelse:
                     continue  # argument defaulting of get_volume
                 out.append(".ite (%s) (%s) (%s)" % (self.cond(s.test), self.block(s.body, target_map), self.block(s.orelse, target_map)))
+                continue
+            if isinstance(s, ast.Raise) and U(s.exc).startswith("NotImplementedError("):
+                out.append(".raise")
                 continue
             raise Bad("statement not understood: " + U(s)[:80])
         return out
@@ -171,6 +185,40 @@ def get_volume_shape(src):
     if not isinstance(body[-1], ast.Return) or U(body[-1].value) != "vol":
         raise Bad("get_volume does not return vol")
     return Tr().block(body)
+
+
+EVAL_HEAD = [
+    "self._backtrack = 0",
+    "cur_value = getattr(self._source_obj, self._source_attr)",
+    "thresh_value = self._threshold",
+    "relation = self._relation",
+    "if relation is Comparison.gt:\n    relation = Comparison.ge",
+    "if relation is Comparison.lt:\n    relation = Comparison.le",
+    "if np.isnan(self._threshold):\n    relation = np.greater\n    thresh_value = 0.0",
+    "state = relation(np.round(cur_value, 10), np.round(thresh_value, 10))",
+]
+
+
+def evaluate_shape(src):
+    """TankLevelCondition.evaluate: the frame (reset of _backtrack, relation folding, rounded comparison, crossing test through
+    _last_value, demand guard, `_last_value = cur_value`, `return bool(state)`) is checked LITERALLY; the backtrack computation under the
+    demand guard is translated into tokens"""
+    f = find_fn(ast.parse(src), "evaluate", "TankLevelCondition")
+    body = strip_doc(f.body)
+    got = [U(s) for s in body[:len(EVAL_HEAD)]]
+    if got != EVAL_HEAD:
+        bad = [g for g, w in zip(got, EVAL_HEAD) if g != w]
+        raise Bad("TankLevelCondition.evaluate: frame changed: %s" % (bad[:1] or got[-1:]))
+    rest = body[len(EVAL_HEAD):]
+    if len(rest) != 3 or U(rest[1]) != "self._last_value = cur_value" or U(rest[2]) != "return bool(state)":
+        raise Bad("TankLevelCondition.evaluate: tail is not `if crossing: ...; self._last_value = cur_value; return bool(state)`")
+    cr = rest[0]
+    if not isinstance(cr, ast.If) or cr.orelse or U(cr.test) != "state and (not relation(np.round(self._last_value, 10), np.round(thresh_value, 10)))":
+        raise Bad("TankLevelCondition.evaluate: crossing test changed: %s" % U(cr.test) if isinstance(cr, ast.If) else "no if")
+    if len(cr.body) != 1 or not isinstance(cr.body[0], ast.If) or cr.body[0].orelse or \
+            U(cr.body[0].test) != "self._source_obj.demand != 0 and (not self._source_obj.demand is None)":
+        raise Bad("TankLevelCondition.evaluate: demand guard changed")
+    return Tr().block(cr.body[0].body)
 
 
 def postsolve_shape(src):
@@ -252,6 +300,7 @@ def generate():
     hyd = open(os.path.join(REPO, "wntr/sim/hydraulics.py")).read()
     el = open(os.path.join(REPO, "wntr/network/elements.py")).read()
     core = open(os.path.join(REPO, "wntr/sim/core.py")).read()
+    ctl = open(os.path.join(REPO, "wntr/network/controls.py")).read()
     w = internal_writers(core)
     lines = [
         "-- GENERATED by harness/props/c06_translate.py from wntr/sim/hydraulics.py, wntr/network/elements.py, wntr/sim/core.py (Python ast). Do not edit.",
@@ -267,6 +316,9 @@ def generate():
         "",
         "/-- `Tank.get_volume(level)` (the `if level is None: level = self.level` defaulting dropped) -/",
         "def getVolumeShape : S := " + get_volume_shape(el),
+        "",
+        "/-- `TankLevelCondition.evaluate`: the backtrack computation under the demand guard (the frame around it is checked literally) -/",
+        "def backtrackShape : S := " + evaluate_shape(ctl),
         "",
         "/-- `WNTRSimulator._run_postsolve_controls` (logging dropped) -/",
         "def postsolveShape : List PTok := " + postsolve_shape(core),
